@@ -25,6 +25,8 @@ pub enum PreprocessError {
     InvalidIfndef(SourceLocation),
     InvalidElse(SourceLocation),
     InvalidEndIf(SourceLocation),
+    ElseAfterElse(SourceLocation),
+    ElifAfterElse(SourceLocation),
     ConditionChainNotFinished,
     ElseNotMatched,
     EndIfNotMatched,
@@ -115,6 +117,12 @@ impl CompileError for PreprocessError {
             }
             PreprocessError::InvalidEndIf(loc) => {
                 w.write_message(&|f| write!(f, "invalid #endif"), *loc, Severity::Error)
+            }
+            PreprocessError::ElseAfterElse(loc) => {
+                w.write_message(&|f| write!(f, "#else after #else"), *loc, Severity::Error)
+            }
+            PreprocessError::ElifAfterElse(loc) => {
+                w.write_message(&|f| write!(f, "#elif after #else"), *loc, Severity::Error)
             }
             PreprocessError::ConditionChainNotFinished => w.write_message(
                 &|f| write!(f, "not enough #endif's encountered"),
@@ -1022,7 +1030,16 @@ fn macro_resolve() {
 }
 
 /// Stores the active #if blocks
-struct ConditionChain(Vec<ConditionState>);
+struct ConditionChain(Vec<ConditionBlock>);
+
+/// An #if block that has not reached its #endif
+struct ConditionBlock {
+    /// How the current branch of the block is processed
+    state: ConditionState,
+
+    /// If the #else branch has started - which has to be the last branch
+    seen_else: bool,
+}
 
 #[derive(PartialEq, Eq, Copy, Clone)]
 enum ConditionState {
@@ -1042,18 +1059,36 @@ impl ConditionChain {
     }
 
     fn push(&mut self, gate: ConditionState) {
-        self.0.push(gate);
+        self.0.push(ConditionBlock {
+            state: gate,
+            seen_else: false,
+        });
     }
 
-    fn switch(&mut self, active: bool) -> Result<(), PreprocessError> {
-        match self.0.pop() {
-            Some(val) => {
-                self.0.push(match val {
+    /// Move to the next branch of the innermost block for an #elif or an #else
+    fn switch(
+        &mut self,
+        active: bool,
+        is_else: bool,
+        location: SourceLocation,
+    ) -> Result<(), PreprocessError> {
+        match self.0.last_mut() {
+            Some(block) => {
+                // No branch can follow the #else branch
+                if block.seen_else {
+                    return Err(if is_else {
+                        PreprocessError::ElseAfterElse(location)
+                    } else {
+                        PreprocessError::ElifAfterElse(location)
+                    });
+                }
+                block.seen_else = is_else;
+                block.state = match block.state {
                     ConditionState::Enabled => ConditionState::DisabledOuter,
                     ConditionState::DisabledInner if active => ConditionState::Enabled,
                     ConditionState::DisabledInner => ConditionState::DisabledInner,
                     ConditionState::DisabledOuter => ConditionState::DisabledOuter,
-                });
+                };
                 Ok(())
             }
             None => Err(PreprocessError::ElseNotMatched),
@@ -1068,7 +1103,9 @@ impl ConditionChain {
     }
 
     fn is_active(&self) -> bool {
-        self.0.iter().all(|gate| *gate == ConditionState::Enabled)
+        self.0
+            .iter()
+            .all(|block| block.state == ConditionState::Enabled)
     }
 }
 
@@ -1173,7 +1210,7 @@ fn preprocess_command(
             let command = trim_whitespace(command);
             let resolved = apply_macros(command, macros, true, file_loader.source_manager)?;
             let active = crate::condition_parser::parse(&resolved, command_location)?;
-            condition_chain.switch(active)?;
+            condition_chain.switch(active, false, command_location)?;
 
             Ok(())
         }
@@ -1182,7 +1219,7 @@ fn preprocess_command(
             if !command.is_empty() {
                 Err(PreprocessError::InvalidElse(command_location))
             } else {
-                condition_chain.switch(true)?;
+                condition_chain.switch(true, true, command_location)?;
                 Ok(())
             }
         }
